@@ -11,6 +11,12 @@ CHECKS = {
  "C06": ("model_checking", "E1 smallscope + refbin", "exhaustive enumeration of all byte strings up to length n over a steering alphabet plus all truncations/substitutions of valid encodings, each decoded by the real library and judged by validate/re-encode/re-decode and the strict reference decoder",
          "Every byte string of the bounded universe is decoded under every schema of SU; whenever the library returns Ok the value must validate, re-encode and re-decode to itself, and inputs the strict reference decoder finds truncated must be errors.",
          "5 C06", "truncation is decided by refbin; byte strings outside the alphabet/length bound not covered"),
+ "C03": ("model_checking", "E2 opseq", "explicit-state breadth-first exploration of operation sequences on the real container Writer with canonical-state de-duplication (hook snapshot), every state closed by each terminal and read back against a plain-list reference model",
+         "All operation sequences over a 14-operation alphabet up to the depth bound, for every codec x block size x schema configuration, are executed on the real Writer; each reachable canonical state is finished by into_inner, drop and reopen+append, and the real Reader must return exactly the model's values, schema and metadata.",
+         "5 C03", "equal canonical snapshots have equal futures for a fixed configuration; depth bound per codec family stated in evidence"),
+ "C14": ("fault_enumeration", "E3 envfault", "exhaustive enumeration of every cut offset and every single-byte alteration of every marker/magic byte of real multi-block files, each read by the real Reader and judged against block boundaries from an independent layout parser",
+         "Every byte offset of 24 real three-block files (4 schemas x 6 codecs, object counts 1, 2, 100) is used as a cut point and every marker/magic byte is altered three ways; the real Reader must yield exactly the complete blocks before the damage and then one error (or a clean end on a block boundary).",
+         "5 C14", "block boundaries come from refocf, the independent layout parser"),
 }
 def main():
     checks = []
@@ -35,11 +41,13 @@ def main():
             "guard": "cargo feature `verif-hooks` of apache-avro",
             "enable": "the harness depends on apache-avro by path (/repo/avro) with the feature list in harness/Cargo.toml",
             "baseline_off_cmd": "cd /repo && cargo nextest run --workspace --no-fail-fast --offline",
-            "source_commits": [],
+            "source_commits": ["c19c0b7"],
             "add_only": True,
         },
         "engines": [
-            {"name": "E1 smallscope", "path": "harness/src", "serves_properties": sorted(CHECKS), "kind_free_text": "bounded-exhaustive enumeration of schemas x values x byte strings executed directly on the real library, judged by independent reference models"},
+            {"name": "E1 smallscope", "path": "harness/src", "serves_properties": [k for k in sorted(CHECKS) if "E1" in CHECKS[k][1]], "kind_free_text": "bounded-exhaustive enumeration of schemas x values x byte strings executed directly on the real library, judged by independent reference models"},
+            {"name": "E2 opseq", "path": "harness/src/c03.rs", "serves_properties": [k for k in sorted(CHECKS) if "E2" in CHECKS[k][1]], "kind_free_text": "explicit-state BFS over operation sequences on real writer objects, canonical state hashing via hook snapshots, reference model = plain list"},
+            {"name": "E3 envfault", "path": "harness/src/c14.rs", "serves_properties": [k for k in sorted(CHECKS) if "E3" in CHECKS[k][1]], "kind_free_text": "exhaustive enumeration of environment faults: cut offsets, byte alterations, sink answer sequences with bounded deviations"},
         ],
         "checks": checks,
         "not_applicable": na,
